@@ -303,6 +303,7 @@ SPECS["C11"] = dict(
     rule="TODO",
     jobs=[
         rapid("TestC11Isolation", 250, 8000, sq=4, st=16),
+        plain("TestC11KnownStaleFEC", sq=1, st=1),
     ],
 )
 
